@@ -25,24 +25,7 @@ from mindsdb_sql.parser.dialects.mindsdb.lexer import MindsDBLexer
 from mindsdb_sql.parser.dialects.mindsdb.retrain_predictor import RetrainPredictor
 from mindsdb_sql.parser.dialects.mindsdb.finetune_predictor import FinetunePredictor
 from mindsdb_sql.parser.logger import ParserLogger
-from mindsdb_sql.parser.utils import ensure_select_keyword_order, JoinType, tokens_to_string
-
-def unquote_string_token(value, quote):
-    # remove the quotes of a quoted string token and decode its escapes in one pass
-    value = value[1:-1]
-
-    def decode(match):
-        item = match.group(0)
-        if item == "''":
-            return "'"
-        if item[1] in ('\\', '"', "'"):
-            return item[1]
-        # unknown escape sequence is kept as it is
-        return item
-
-    pattern = r"\\.|''" if quote == "'" else r'\\.'
-    return re.sub(pattern, decode, value)
-
+from mindsdb_sql.parser.utils import ensure_select_keyword_order, JoinType, tokens_to_string, unquote_string_token
 
 def param_to_identifier(name, value):
     # value of a USING parameter that names an object: `param = name` or `param = 'name'`
